@@ -251,12 +251,14 @@ def run(tier: str) -> int:
                     pass
                 else:
                     rep.inconclusive_query(f"{key}: {res.detail}")
+        kern = run_kernels(rep, tier)
+        rep.stats.units |= {"SFixed/UFixed._adjust_val (AST -> QF_BVFP, right bounds -6..6)"}
         rep.stats.units |= {"cohdl.std._fixed.SFixed/UFixed.__add__/__sub__/__mul__ (result formats)", "SFixed/UFixed.resize_fn (overflow x shift x round style x overflow style)",
                             "SFixed/UFixed.__init__ (from int, Signed, Unsigned, other formats)", "__eq__", "_from_bits_/_to_bits_"}
         rep.assumptions += ["formats left in [-2..3], right in [-3..2], width <= %d; all raw values symbolic" % (4 if tier == "quick" else 5),
                             "construction from Python floats is outside (floating point)", "ROUND = round half to even on the exact value, then WRAP/SATURATE"]
         return rep.finish({
-            "programs": rep.stats.programs, "cells": len(real), "cell_results": counts,
+            "programs": rep.stats.programs, "cells": len(real), "cell_results": counts, "full_width_kernels": kern,
             "disagreements_checked": len(rep.violations) + len(rep.known_hits),
             "distinct_nontrivial": len(rep.stats.nontrivial), "evaluations": len(real),
             "rule": "one cell = operation x format pair x style combination, all raw values",
@@ -264,6 +266,76 @@ def run(tier: str) -> int:
         })
     finally:
         wd.close()
+
+
+# ---------------------------------------------------------------- full-width kernel: number -> raw integer (`_adjust_val`)
+def run_kernels(rep, tier):
+    """SFixed/UFixed._adjust_val translated from its AST (vfw/pykernel.py) for every right bound in -6..6: an integer that the
+    format can represent is mapped to exactly its raw value, for all raw values of up to 62 bits (the code divided through
+    float64, which CrossHair models as reals)."""
+    import inspect
+    import time as _time
+    import z3
+    from cohdl import std
+    from .. import pykernel as K
+    N, RAWBITS = 80, 62
+    counts, samples = {}, []
+    for kind, cls in (("S", std.SFixed), ("U", std.UFixed)):
+        fn = inspect.unwrap(cls.__dict__["_adjust_val"].__func__)
+        for exp in range(-6, 7):
+            m = z3.BitVec("m", N)
+            lim = z3.BitVecVal(1 << RAWBITS, N)
+            # representable integers: val = m * 2**exp for exp >= 0; for exp < 0 every integer val with raw = val * 2**-exp in range
+            if exp >= 0:
+                val, want, dom = m << exp, m, [m < lim, (m >= 0) if kind == "U" else (m > -lim)]
+            else:
+                val, want, dom = m, m << (-exp), [m < z3.BitVecVal(1 << (RAWBITS + exp), N), (m >= 0) if kind == "U" else (m > -z3.BitVecVal(1 << (RAWBITS + exp), N))]
+            tr = K.Translator(N, {}, consts={"cls._exp": exp})
+            key = f"{cls.__name__}._adjust_val|exp={exp}"
+            try:
+                got = tr.function(fn, {"val": ("int", val)})
+            except K.Untranslatable as e:
+                rep.inconclusive_query(f"kernel {key}: not translatable: {e}")
+                continue
+            if got[0] != "int":
+                rep.inconclusive_query(f"kernel {key}: result is not an integer")
+                continue
+            sv = z3.Solver()
+            sv.set("timeout", 300000 if tier == "quick" else 1200000)
+            sv.add(*dom)
+            t0 = _time.time()
+            twin = str(sv.check())
+            sv.add(got[1] != want)
+            r = str(sv.check())
+            rep.stats.queries += 1
+            rep.stats.solver_s += _time.time() - t0
+            counts[r] = counts.get(r, 0) + 1
+            if r == "unsat" and twin == "sat":
+                rep.stats.unsat += 1
+                rep.stats.nontrivial.add("kernel|" + key)
+                if len(samples) < 2:
+                    samples.append({"kernel": key, "verdict": f"unsat: every representable integer with a raw value below 2**{RAWBITS} is converted exactly"})
+            elif r == "sat":
+                rep.stats.sat += 1
+                mv = sv.model().eval(m, model_completion=True).as_signed_long()
+                number = mv << exp if exp >= 0 else mv
+                raw_want = mv if exp >= 0 else mv << (-exp)
+                T = cls[exp + 63:exp]
+                try:
+                    raw_got = T(number)._val.to_int()
+                except BaseException as e:
+                    if isinstance(e, (KeyboardInterrupt, SystemExit)):
+                        raise
+                    raw_got = f"{type(e).__name__}: {str(e)[:80]}"
+                if raw_got != raw_want:
+                    rep.violation(f"kernel|{cls.__name__}._adjust_val", f"{cls.__name__}[{exp + 63}:{exp}]({number}) holds the raw value {raw_got}, the represented number needs {raw_want}",
+                                  {"number": number, "exp": exp, "raw_got": str(raw_got), "raw_want": raw_want})
+                else:
+                    rep.inconclusive_query(f"kernel {key}: witness {number} does not reproduce")
+            else:
+                rep.stats.unknown += 1
+                rep.inconclusive_query(f"kernel {key}: {r} (twin {twin})")
+    return {"kernels": 26, "results": counts, "raw_bits": RAWBITS, "samples": samples}
 
 
 def _shape(parts):
